@@ -134,6 +134,20 @@ func String(name string) string {
 	return v
 }
 
+// RepoFile returns the text of a file of the repository under test (path relative to its root), e.g. a shipped Lua
+// script: the real artefact is the input of the check in both modes.
+func RepoFile(rel string) string {
+	root := os.Getenv("VERIF_REPO")
+	if root == "" {
+		root = "/repo"
+	}
+	b, err := os.ReadFile(root + "/" + rel)
+	if err != nil {
+		panic(err)
+	}
+	return string(b)
+}
+
 // Concrete returns v; under the engine the exploration forks over every feasible value of v so that the result is a
 // constant on each path (use it for small-range shape parameters such as list lengths and cursors).
 func Concrete(v int) int { return v }
